@@ -10,7 +10,7 @@ import sys
 from abc import ABCMeta, abstractmethod
 from contextlib import contextmanager
 from types import CodeType, FrameType
-from typing import Any, Callable, Dict, Iterator, Optional, Union, cast
+from typing import Any, Callable, Dict, Iterator, Optional, Tuple, Union, cast
 
 import opcode
 
@@ -215,15 +215,19 @@ class CallTracer:
         self.logger = logger
         self.traces: Dict[FrameType, CallTrace] = {}
         self.sample_rate = sample_rate
-        self.cache: Dict[CodeType, Optional[Callable[..., Any]]] = {}
+        # id(code) -> (code, function). Code objects compare equal across files when
+        # their source is identical, so the key is the identity; the code object is
+        # kept in the value so that its id cannot be reused while it is cached.
+        self.cache: Dict[int, Tuple[CodeType, Optional[Callable[..., Any]]]] = {}
         self.should_trace = code_filter
         self.max_typed_dict_size = max_typed_dict_size
 
     def _get_func(self, frame: FrameType) -> Optional[Callable[..., Any]]:
         code = frame.f_code
-        if code not in self.cache:
-            self.cache[code] = get_func(frame)
-        return self.cache[code]
+        entry = self.cache.get(id(code))
+        if entry is None:
+            entry = self.cache[id(code)] = (code, get_func(frame))
+        return entry[1]
 
     def handle_call(self, frame: FrameType) -> None:
         if self.sample_rate and random.randrange(self.sample_rate) != 0:
